@@ -110,6 +110,24 @@ func fromKvql(e kvql.Expression) *ref.Expr {
 	return &ref.Expr{K: fmt.Sprintf("?%T", e)}
 }
 
+// notExpressible: the tree contains a folded constant the language has no
+// literal for: a negative number, or a literal zero as divisor (refused by the
+// checker when written out).
+func notExpressible(e *ref.Expr) bool {
+	if (e.K == "i" && e.I < 0) || (e.K == "f" && e.F < 0) {
+		return true
+	}
+	if e.K == "bin" && e.Op == "/" && isZeroLit(e.A[1]) {
+		return true
+	}
+	for _, a := range e.A {
+		if notExpressible(a) {
+			return true
+		}
+	}
+	return false
+}
+
 // canonTree: a structural rendering (full parentheses, lower-case operators).
 func canonTree(e *ref.Expr) string {
 	var b strings.Builder
@@ -463,7 +481,7 @@ func c15Judge(c *c15Case) (fails []core.Failure, status string, evals int) {
 				if i := strings.Index(scanStr, mark); i >= 0 && strings.HasSuffix(scanStr, "'}") {
 					shown := scanStr[i+len(mark) : len(scanStr)-2]
 					executed := canonTree(fromKvql(filt.Ast.Expr))
-					if strings.Contains(executed, "i:-") || strings.Contains(executed, "f:-") || strings.Contains(executed, "bin:/(i:1,i:0)") || strings.Contains(executed, ",i:0)") && strings.Contains(executed, "bin:/") {
+					if notExpressible(fromKvql(filt.Ast.Expr)) {
 						// folded constants the language has no literal for (negative
 						// numbers, a folded zero divisor): not expressible, not judged
 						return fails, "ok(explain-not-expressible)", evals
